@@ -180,11 +180,13 @@ Definition rc_reparent (s : rc) (nd newp : nid) : result :=
 
 (* ----- option -> selectedcontent ----- *)
 
+(* an HTML element with that local name (name.expanded() == expanded_name!(html "..."); before the repair in /repo
+   the namespace was not looked at) *)
 Definition local_is (x : data) (l : str) : bool :=
-  match x with Element nm _ _ _ => str_eqb (q_local nm) l | _ => false end.
+  match x with Element nm _ _ _ => str_eqb (q_ns nm) s_ns_html && str_eqb (q_local nm) l | _ => false end.
 
 (* Node::get_option_element_nearest_ancestor_select, the loop from [cur] upwards
-   (local names only, no namespace test) *)
+   (HTML elements only) *)
 Fixpoint rc_nearest_select (s : rc) (fuel : nat) (cur : nid) (seen_optgroup : bool) : option nid :=
   match fuel with
   | 0 => None
@@ -202,20 +204,19 @@ Fixpoint rc_nearest_select (s : rc) (fuel : nat) (cur : nid) (seen_optgroup : bo
     else next seen_optgroup
   end.
 
-(* Node::get_a_selects_enabled_selectedcontent, the VecDeque loop: breadth first;
-   the data inspected is the select's own ([fixed] = false) or the node's *)
-Fixpoint rc_find_selectedcontent (fixed : bool) (s : rc) (sel : nid) (fuel : nat) (queue : list nid) : option nid :=
-  match fuel, queue with
+(* Node::get_a_selects_enabled_selectedcontent: the stack of nodes still to visit, next one first - tree order
+   (before the repair in /repo: a VecDeque, breadth first); the data inspected is the select's own ([fixed] = false,
+   the code before fix fade576) or the node's *)
+Fixpoint rc_find_selectedcontent (fixed : bool) (s : rc) (sel : nid) (fuel : nat) (stack : list nid) : option nid :=
+  match fuel, stack with
   | S f, nd :: rest =>
-    let q' := rest ++ rkids s nd in
     if local_is (rdata s (if fixed then nd else sel)) s_selectedcontent then Some nd
-    else rc_find_selectedcontent fixed s sel f q'
+    else rc_find_selectedcontent fixed s sel f (rkids s nd ++ rest)
   | _, _ => None
   end.
 
-(* Node::clone_with_subtree: children first, then the node itself, which gets
-   the ORIGINAL's parent link and a shallow copy of the data (template contents
-   are shared) *)
+(* Node::clone_with_subtree: the children are cloned first, then the node itself is allocated (no parent yet: the
+   clone is not inserted anywhere) and the cloned children are pointed at it.  [Before fix: in /repo the clone carried the ORIGINAL's parent link.] *)
 Fixpoint clone_sub (fuel : nat) (s : rc) (n : nid) : rc * nid :=
   match fuel with
   | 0 => (s, n)
@@ -224,16 +225,28 @@ Fixpoint clone_sub (fuel : nat) (s : rc) (n : nid) : rc * nid :=
       fold_left (fun (acc : rc * list nid) k =>
                    let '(s', k') := clone_sub f (fst acc) k in (s', snd acc ++ [k']))
                 (rkids s n) (s, []) in
-    (ralloc s1 (rdata s n) (rparent s n) ks, rsize s1)
+    (* the contents of a template are cloned too (before fix: in /repo the clone shared them with the original);
+       the contents fragment has no parent *)
+    let '(s2, x) :=
+      match rdata s n with
+      | Element nm at_ (Some t) ip => let '(s', t') := clone_sub f s1 t in (s', Element nm at_ (Some t') ip)
+      | x => (s1, x)
+      end in
+    let me := rsize s2 in
+    (fold_left (fun acc k => set_parent acc k (Some me)) ks (ralloc s2 x None ks), me)
   end.
 
-(* Node::clone_an_option_into_selectedcontent *)
+(* Node::clone_an_option_into_selectedcontent: the clones of the option's children become the children of the
+   selectedcontent (parent links included); the children they replace are detached *)
 Definition rc_clone_into (s : rc) (opt sc : nid) : rc :=
   let '(s1, ks) :=
     fold_left (fun (acc : rc * list nid) k =>
                  let '(s', k') := clone_sub (S (rsize s)) (fst acc) k in (s', snd acc ++ [k']))
               (rkids s opt) (s, []) in
-  set_rkids s1 sc ks.
+  let old := rkids s1 sc in
+  let s2 := fold_left (fun acc k => set_parent acc k (Some sc)) ks s1 in
+  let s3 := set_rkids s2 sc ks in
+  fold_left (fun acc k => set_parent acc k None) old s3.
 
 (* TreeSink::maybe_clone_an_option_into_selectedcontent *)
 Definition rc_clone_option (fixed : bool) (s : rc) (opt : nid) : result :=
